@@ -154,6 +154,35 @@
           (one (+ bi (math/pow 2 j)))))))
   (family-result count bad firsts))
 
+# every mantissa with exactly three bits set whose highest set bit is i, for exponent fields es
+(defn- do-threebit [i es]
+  (var count 0) (var bad 0) (def firsts @[])
+  (def bi (math/pow 2 i))
+  (each e es
+    (def hi0 (* e 1048576))
+    (for j 1 i
+      (def bj (+ bi (math/pow 2 j)))
+      (for k 0 j
+        (def m (+ bj (math/pow 2 k)))
+        (def x (verif/bits-to-double (+ hi0 (math/floor (/ m 4294967296))) (% m 4294967296)))
+        (check-x x))))
+  (family-result count bad firsts))
+
+# full-width mantissas: bit pattern hi = k*2654435761 mod 2^32, lo = (k*2246822519 + 12345) mod 2^32
+# for k in [a, b) (a fixed multiplicative stride over the whole 64-bit pattern space; non-finite skipped)
+(defn- do-stride [a b]
+  (var count 0) (var bad 0) (def firsts @[])
+  (for k a b
+    (def hi (% (* k 2654435761) 4294967296))
+    # never build a non-finite pattern: NaN payloads alias boxed values in a nan-boxed build
+    (unless (= 2047 (% (math/floor (/ hi 1048576)) 2048))
+      (def x (verif/bits-to-double hi (% (+ (* k 2246822519) 12345) 4294967296)))
+      (check-x x)
+      (unless (rtparse x)
+        (++ bad)
+        (when (< (length firsts) 4) (array/push firsts (bits x))))))
+  (family-result count bad firsts))
+
 # for each exponent field e in [a, b): mantissas {0, 1, 2, all-ones, all-ones - 1}, both signs
 (defn- do-pow2 [a b]
   (var count 0) (var bad 0) (def firsts @[])
@@ -250,6 +279,8 @@
     :lo-range (do-lo-range (item 1) (item 2) (item 3))
     :twobit (do-twobit (item 1))
     :pow2 (do-pow2 (item 1) (item 2))
+    :threebit (do-threebit (item 1) (item 2))
+    :stride (do-stride (item 1) (item 2))
     :ints (do-ints (item 1) (item 2) (item 3))
     :texts (do-texts (tuple/slice item 1))
     :i64 (do-i64 (item 1) (tuple/slice item 2))
